@@ -32,13 +32,16 @@ class SetupSpec(Spec):
     def __init__(self, cfg, tier):
         super().__init__(cfg, tier)
         self.max_depth = cfg["depth"]
-        self.time_budget = 45 if tier == "quick" else 800
+        self.time_budget = 600 if tier == "quick" else 1500   # safety net only: the depth bound is the real bound
         self.host = Host(gap=cfg["gap"], pace=cfg["pace"], ready_period=cfg.get("ready", 1), extra=dict(connect=1))
         toks = [("tok", U.SETUP, 0, 0), ("tok", U.SETUP, 0, 1), ("tok", U.SETUP, 5, 0), ("tok", U.IN, 0, 0), ("tok", U.OUT, 0, 0),
-                ("sof", 0x2A5), ("hs", U.ACK)]
+                ("sof", 0x2A5), ("hs", U.ACK),
+                ("tokcut", U.SETUP, 0, 0, 2), ("tokcut", U.OUT, 0, 0, 1), ("toklong", U.SETUP, 0, 0)]
         data = [("data", U.DATA0, p, "ok") for p in ("S1", "S2", "S3", "len7", "len9", "len0")]
         data += [("data", U.DATA0, "S1", "badcrc"), ("data", U.DATA0, "S2", "abort4"), ("data", U.DATA0, "S1", "abort0"),
-                 ("data", U.DATA1, "S3", "ok")]
+                 ("data", U.DATA1, "S3", "ok"),
+                 # an over-long packet whose first ten bytes are a valid setup payload + its CRC16, followed by more bytes
+                 ("data", U.DATA0, "S3", "tail2"), ("data", U.DATA0, "S2", "tail3")]
         self._acts = toks + data
 
     def build(self):
@@ -70,11 +73,15 @@ class SetupSpec(Spec):
 
     def _packet(self, a):
         if a[0] == "tok": return U.token(a[1], a[2], a[3]), None
+        if a[0] == "tokcut": return U.token(a[1], a[2], a[3]), a[4]          # PHY drops rx_active after a[4] bytes of the token
+        if a[0] == "toklong": return U.token(a[1], a[2], a[3]) + (0x00,), None   # a fourth byte: not a token
         if a[0] == "sof": return U.sof(a[1]), None
         if a[0] == "hs": return U.handshake(a[1]), None
         _, pid, pl, var = a
         payload = PAYLOADS[pl]
         pkt = U.data_packet(pid, payload, corrupt=(var == "badcrc"))
+        if var == "tail2": pkt = pkt + (0x5A, 0xC3)
+        if var == "tail3": pkt = pkt + (0x00, 0xFF, 0x81)
         abort = None
         if var == "abort4": abort = 5          # PID + 4 payload bytes, then the PHY drops rx_active
         if var == "abort0": abort = 1
